@@ -10,3 +10,6 @@ open RV.C01
 #print axioms binop_any_store
 #print axioms simple_refine_history
 #print axioms pinned_has_context_yields_ghost
+#print axioms nested_refines_quadset
+#print axioms nested_simple_refines
+#print axioms binop_nested
